@@ -591,6 +591,26 @@ def check_lazy(case, stats):
             if colwise_after != colwise_before:
                 return [Failure(f"C20:column-wise-write-changed-by-field-access:{fcase['fmt']}", {"before": colwise_before[:300], "after": colwise_after[:300],
                                                                                                "accessed": [names[i % len(names)] for i in case["order"]]})]
+        if rep_name:
+            # a chunk that already carries a user-set column (set by assignment, or by an earlier replace) handed to bnp.replace for another column
+            a = read()
+            if case["order"][0] % 2:
+                setattr(a, rep_name, getattr(a, rep_name) + 1)
+            else:
+                a = bnp.replace(a, **{rep_name: getattr(a, rep_name) + 1})
+            other = next((nm for nm in names if nm != rep_name and isinstance(getattr(ref, nm), np.ndarray)
+                          and np.issubdtype(getattr(ref, nm).dtype, np.integer)), None)
+            if other is not None and len(ref):
+                rows_before, bytes_before2 = snap(a), written(a)
+                b1 = written(bnp.replace(a, **{other: getattr(a, other) + 5}))
+                if not same(snap(a), rows_before) or written(a) != bytes_before2:
+                    return [Failure(f"C20:input-modified:bnp.replace-on-chunk-with-a-set-column:{fcase['fmt']}", {"set_first": rep_name, "replaced": other,
+                                                                                                          "before": bytes_before2[:300], "after": written(a)[:300]})]
+                b2 = written(bnp.replace(a, **{other: getattr(a, other) + 5}))
+                if b1 != b2:
+                    return [Failure(f"C20:second-call-differs:bnp.replace-on-chunk-with-a-set-column:{fcase['fmt']}", {"first": b1[:300], "second": b2[:300]})]
+                if stats is not None:
+                    stats.extra["replace_on_chunk_with_a_set_column"] = stats.extra.get("replace_on_chunk_with_a_set_column", 0) + 1
     except Exception as e:  # noqa
         return [Failure(f"C20:lazy-raised:{fcase['fmt']}:{type(e).__name__}:{_where(e)}", {"error": repr(e)[:300]})]
     return []
